@@ -2,6 +2,7 @@
 import re
 from mir import Call, canon, loc, strip, walk, alts, show
 import lib
+import model_msgs as mm
 import panics
 from lib import Intervals, INT_RANGES
 
@@ -99,6 +100,25 @@ def reader_table(F, bodies):
                                 rd.append(cc)
                     table[v] = [cc.mname for cc in rd]
                     sites[v] = rd
+                if not any(table.values()):
+                    # the reads sit under a *later* match on the same marker byte (first match only picks the width):
+                    # take the arms of the last switch on that operand
+                    key0 = lib.operand_key(b, {"k": "copy", "pl": c.dest})
+                    later = [w for w in sorted(b.reachable) if w != sw and b.term(w)["k"] == "switch" and w in b.reach([sw])]
+                    for w in reversed(later):
+                        cw = lib.decode_switch(b, w)
+                        if cw is None or cw.kind != "int" or cw.place is None or lib.operand_key(b, {"k": "copy", "pl": cw.place}) != key0:
+                            continue
+                        t2 = b.term(w)
+                        table, sites = {}, {}
+                        for v, tg in t2["arms"] + [["otherwise", t2["otherwise"]]]:
+                            others = [tg2 for v2, tg2 in t2["arms"] + [["otherwise", t2["otherwise"]]] if tg2 != tg]
+                            reach = b.reach([tg])
+                            rd = [cc for cc in b.calls if cc.bb in reach and cc.fn.get("trait") and canon(cc.fn["trait"]) == "bytes::Buf" and cc.mname in panics.BUF_READS
+                                  and panics.recv_root(b, cc.args[0]) == recv and all(cc.bb not in b.reach([o]) for o in others)]
+                            table[v] = [cc.mname for cc in rd]
+                            sites[v] = rd
+                        break
                 return b, c, table, sites
     return None
 
@@ -293,6 +313,20 @@ def c18_l1(F, X, rep, bodies):
         p = pushes[0]
         e = strip(X.operand(b, p.args[1]))
         typ_e = val_e = None
+        rb = b                       # the body in which the record is read
+        if not any(a[0] == "agg" and a[1] == "tlv::TlvEntry" for a in alts(e)):
+            # the record is read by a same-file helper (`entries.push(read_tlv_entry(&mut b)?)`): the read discipline is
+            # checked in the helper, whose buffer parameter is the decoder's buffer
+            e1 = strip(mm.inline_pure(F, X, e, depth=1, keep=lambda n: F.by_cdef.get(n) is None or F.by_cdef[n].span.get("f") != b.span.get("f") or n.startswith("<")))
+            for a in alts(e1):
+                if a[0] == "agg" and a[1] == "tlv::TlvEntry" and a[4][0] in F.by_cdef:
+                    hb = F.by_cdef[a[4][0]]
+                    # parameters of the helper stay symbolic: evaluate the aggregate in the helper itself
+                    for bi2 in sorted(hb.reachable):
+                        for s2 in hb.blocks[bi2]["s"]:
+                            if s2["k"] == "assign" and s2["rv"]["k"] == "agg" and canon(s2["rv"].get("adt") or "") == "tlv::TlvEntry":
+                                e = strip(X.rvalue(hb, s2["rv"], (hb.cdef, bi2, ""), 0))
+                                rb = hb
         for a in alts(e):
             if a[0] == "agg" and a[1] == "tlv::TlvEntry":
                 d = dict(a[3])
@@ -300,7 +334,7 @@ def c18_l1(F, X, rep, bodies):
         okagg = typ_e is not None and val_e is not None
         rep.ob("C18-L1", okagg, fn, "pushed value is a TlvEntry aggregate", where=p.loc, how=show(e)[:100], detail="" if okagg else "pushed %s" % show(e)[:100])
         if okagg:
-            reads = [c for c in b.calls if c.name == "tlv::ProtoBuf::get_compact_size"]
+            reads = [c for c in rb.calls if c.name == "tlv::ProtoBuf::get_compact_size"]
             # typ = result of a compact-size read (via ?), value = to_vec(copy_to_bytes(recv, len)), len = next compact size
             def is_cs(x):
                 x = _peel(x)
@@ -315,14 +349,14 @@ def c18_l1(F, X, rep, bodies):
                 tc = _peel(typ_e)[4]
                 lc = _peel(v[2][1])[4]
                 cc = v[4]
-                same = len({panics.recv_root(b, x.args[0]) for x in (tc, lc, cc)}) == 1
-                order = b.dominates(tc.bb, lc.bb) and b.dominates(lc.bb, cc.bb) and tc.bb != lc.bb
+                same = len({panics.recv_root(rb, x.args[0]) for x in (tc, lc, cc)}) == 1
+                order = rb.dominates(tc.bb, lc.bb) and rb.dominates(lc.bb, cc.bb) and tc.bb != lc.bb
                 rep.ob("C18-L1", same and order, fn, "typ, len, value are read in that order from one receiver", where=tc.loc,
                        how="typ@%s < len@%s < value@%s" % (tc.loc, lc.loc, cc.loc),
                        detail="" if same and order else "reads are out of order or from different buffers")
                 # nothing else consumes the receiver inside the loop
-                recv = panics.recv_root(b, tc.args[0])
-                other = [c for c in b.calls if c.args and panics.recv_root(b, c.args[0]) == recv and c.mname in panics.BUF_CONSUMERS and c.bb not in (tc.bb, lc.bb, cc.bb) and c.mname not in ("take",)]
+                recv = panics.recv_root(rb, tc.args[0])
+                other = [c for c in rb.calls if c.args and panics.recv_root(rb, c.args[0]) == recv and c.mname in panics.BUF_CONSUMERS and c.bb not in (tc.bb, lc.bb, cc.bb) and c.mname not in ("take",)]
                 rep.ob("C18-L1", not other, fn, "no other consuming read on the input", where=other[0].loc if other else tc.loc,
                        how="3 consuming calls per record", detail="" if not other else "extra consuming call %s" % other[0].name)
         # no other mutation of the record vector
@@ -378,7 +412,9 @@ def c18_l1(F, X, rep, bodies):
             names = [x[1] for x in walk(it) if x[0] == "call"]
             adapt = [n for n in names if n.startswith("std::iter::Iterator::") and n.split("::")[-1] in ITER_ADAPTORS]
             src = [n for n in names if n in ("core::slice::<impl [T]>::iter", "std::iter::IntoIterator::into_iter")]
-            fld = [x for x in walk(it) if x[0] == "field" and x[1] == "entries"]
+            # the record vector: the field of the stream type that holds Vec<TlvEntry> (whatever it is called)
+            recf = {f["n"] for a in F.adts.values() for v in a.get("variants", []) for f in v.get("fields", []) if "Vec<tlv::TlvEntry>" in f.get("ty", "")}
+            fld = [x for x in walk(it) if x[0] == "field" and x[1] in recf]
             ok = not adapt and bool(fld)
             rep.ob("C18-L1", ok, fn, "iterates the record vector front to back without adaptors", where=itloc, how=show(it)[:100],
                    detail="" if ok else "iterator is %s" % show(it)[:140])
